@@ -13,6 +13,7 @@
 Sites carry file, enclosing function and a description of the target, never a line number (so unrelated edits
 do not change the inventory)."""
 import ast
+import re
 import os
 
 from harness import core
@@ -318,6 +319,16 @@ def analyse():
     return sorted(writes), sorted(langs), sorted(calls), sorted(switches)
 
 
+def exempt_roots():
+    """the exempt roots are part of the MODEL (Model/LangSites.lean, with the reason for each); read here only to compute the
+    certificate of the derived ones"""
+    import os
+    t = open(os.path.join(os.path.dirname(os.path.dirname(os.path.dirname(os.path.abspath(__file__)))), "lean", "Pyrealb", "Model", "LangSites.lean"), encoding="utf-8").read()
+    body = t[t.index("def exemptFunctions : List String := ["):]
+    body = body[:body.index("]")]
+    return re.findall(r'"([^"]+)"', body)
+
+
 def generate():
     writes, langs, calls, switches = analyse()
     if not any(w[1] == "loadFr" for w in writes):
@@ -347,6 +358,27 @@ def generate():
         out.append(",\n".join("  (%s, %s)" % (lean_str(a), lean_str(b)) for a, b in ch))
         out.append("]\n")
     out.append("def callGraph : List (String × String) := " + " ++ ".join("callGraph%d" % k for k in range(len(cchunks))) + "\n")
+    # private helpers of exempt functions: functions holding a current-language site whose callers (name-based call graph,
+    # self-calls apart) are ALL exempt roots or earlier entries of this list; Lean re-checks this certificate
+    roots = exempt_roots()
+    cur_funcs = []
+    for w in langs:
+        if w[3] in ("absent", "current") and w[1] not in cur_funcs:
+            cur_funcs.append(w[1])
+    derived = []
+    changed = True
+    while changed:
+        changed = False
+        for f in cur_funcs:
+            if f in roots or f in derived:
+                continue
+            bare = f.split(".")[-1]
+            callers = sorted(set(a for a, b in calls if b == bare and a != f))
+            if callers and all(c in roots or c in derived for c in callers):
+                derived.append(f)
+                changed = True
+    out.append("/-- helpers reachable only from exempt functions (certificate re-checked by `derived_exempt_tbl`) -/")
+    out.append("def derivedExempt : List String := [" + ", ".join(lean_str(f) for f in derived) + "]\n")
     out.append("end Pyrealb.Gen.Sites\n")
     return {"Pyrealb/Gen/Sites.lean": "\n".join(out)}
 
